@@ -89,6 +89,7 @@ func build(k int) *tworld {
 	conn(tw.r, tw.wn)
 	conn(tw.r, tw.y)
 	conn(tw.z, tw.y)
+	conn(tw.o, tw.z) // the origin has a second link (it announces once per link)
 	if k >= 2 {
 		// shortcut: the innermost hop is also a direct peer of R (its frames
 		// to R are held back like all others, so the honest captures are the
@@ -286,6 +287,10 @@ func TestC08(t *testing.T) {
 
 type captures struct {
 	f1, f2, g1 parsed // O at t1, O at t2, O2 at t1
+	// a1: O's announcement for its OTHER link, sent in the same millisecond as f1
+	// (same origin, same timestamp, different body and origin signature).
+	a1     parsed
+	hasA1  bool
 	honest     map[string]bool
 }
 
@@ -301,7 +306,7 @@ func produce(k int) (*tworld, *captures) {
 		tw.settle()
 		var got *kit.Flight
 		for _, fl := range tw.held {
-			if fl.From == tw.lastH || (k == 0) {
+			if fl.From == tw.lastH {
 				got = fl
 			}
 		}
@@ -316,6 +321,19 @@ func produce(k int) (*tworld, *captures) {
 		tw.lastH = tw.o
 	}
 	caps.f1 = grab()
+	// the origin announces for its second link within the same millisecond.
+	logLen := len(tw.w.Log)
+	must(tw.o.Router().AnnouncePing.Send(tw.z.Identity().IP))
+	tw.settle()
+	for _, fl := range tw.w.Log[logLen:] {
+		if fl.From == tw.o && fl.To == first {
+			p := parse(fl.Bytes)
+			if p.ts == caps.f1.ts && p.src == caps.f1.src && !bytes.Equal(p.sig, caps.f1.sig) {
+				caps.a1, caps.hasA1 = p, true
+			}
+		}
+	}
+	tw.held = nil
 	time.Sleep(3 * time.Millisecond)
 	must(tw.o.Router().AnnouncePing.Send(first.Identity().IP))
 	caps.f2 = grab()
@@ -411,6 +429,18 @@ func variants(tw *tworld, caps *captures, thorough bool) []variant {
 		// body of the other time with this appendix (and vice versa).
 		add("body-from-other-time", caps.f2.withAppendix(p.appendix()), via, -1)
 		add("body-from-other-origin", caps.g1.withAppendix(p.appendix()), via, -1)
+		// body and origin signature of the origin's other announcement of the SAME
+		// millisecond under this announcement's hop records.
+		if caps.hasA1 {
+			add("body-from-same-time-announcement-for-other-link", caps.a1.withAppendix(p.appendix()), via, -1)
+		} else {
+			var dbg []string
+			for _, fl := range tw.w.Log {
+				q := parse(fl.Bytes)
+				dbg = append(dbg, fmt.Sprintf("%s>%s ts=%d same-src=%v", fl.From.Name, fl.To.Name, q.ts, q.src == p.src))
+			}
+			panic(fmt.Sprintf("harness: no second announcement with the same timestamp captured (f1 ts=%d): %v", p.ts, dbg))
+		}
 		// re-attribute: rewrite Router of each record to another known identity.
 		for i := range ch {
 			for _, who := range []*kit.Node{tw.z, tw.y, tw.o2} {
